@@ -89,9 +89,10 @@ func VC06_SignedUpdateLayout() {
 	payload := vsym.Bytes("payload", vsymC06Payload)
 	payload = payload[:vsym.Concrete(len(payload), 1<<17)]
 	signer := vsym.Signer("k1")
-	raw, issuer, serial := vsym.BytesN("cert.raw", 5), vsym.BytesN("issuer", 3), vsym.BytesN("serial", 2)
+	serial := vsym.BytesN("serial", 2)
 	vsym.Assume(serial[0] != 0)
-	cert := vsym.Cert(signer, raw, issuer, serial)
+	cert := vsym.Cert(signer, serial)
+	raw, issuer := cert.Raw, cert.RawIssuer
 	v := efivar.Efivar{Name: string(name), GUID: &guid, Attributes: attributes.Attributes(attrs)}
 
 	t0 := time.Now().UTC()
